@@ -719,37 +719,38 @@ const STAGE2_PARAMS: &[(f64, u64, u64)] = &[
     // B2, d1, d2
     // Cost assumption: a product tree costs about 8 times a convolution.
     // Parameters are chosen so that d2 is about 8x or 16x φ(d1)
-    // B2 = d1*(d2 - φ(d1))
+    // B2 <= d1*(d2 - φ(d1) - 2) - 1, the largest value reached by the polynomial
+    // stage 2 (the rows below MULTIEVAL_THRESHOLD only label the prime walk).
     (30e3, 120, 256),
     (60e3, 120, 512),
     (100e3, 240, 512),
     (200e3, 240, 1024),
     (450e3, 510, 1024),
-    (980e3, 510, 2048),
-    (1.9e6, 1050, 2048),
+    (978.1e3, 510, 2048),
+    (1.896e6, 1050, 2048),
     (4e6, 1050, 4096),
     (8.3e6, 2310, 4096),
-    (18e6, 2310, 8192),
+    (17.81e6, 2310, 8192),
     (33e6, 4620, 8192),
     (71e6, 4620, 16384),
     (133e6, 9240, 16384),
     (285e6, 9240, 32768),
-    (550e6, 19110, 32768),
-    (1.2e9, 19110, 65536),
-    (2.3e9, 39270, 65536),
+    (549.1e6, 19110, 32768),
+    (1.175e9, 19110, 65536),
+    (2.271e9, 39270, 65536),
     (4.8e9, 39270, 131072),
     (7.9e9, 79170, 131072),
     (18e9, 79170, 262144),
-    (37e9, 159390, 262144),
+    (36.73e9, 159390, 262144),
     (78e9, 159390, 524288),
     (150e9, 330330, 524288), // φ=63360
     (320e9, 330330, 1048576),
-    (640e9, 690690, 1048576), // φ=126720
+    (636.7e9, 690690, 1048576), // φ=126720
     (1360e9, 690690, 2097152),
     (2500e9, 1381380, 2097152), // φ=253440
     (5400e9, 1381380, 4194304),
-    (10.5e12, 2852850, 4194304), // φ=518400
-    (22.5e12, 2852850, 8388608),
+    (10.48e12, 2852850, 4194304), // φ=518400
+    (22.45e12, 2852850, 8388608),
 ];
 
 #[test]
